@@ -26,6 +26,26 @@ import (
 	"verif.local/simkit"
 )
 
+// verifRWMutex replaces sync.RWMutex as the supervisor's tree lock (see overlay.py): a one-slot
+// channel created on first use, so that waiting for the lock is a durable wait for synctest.
+type verifRWMutex struct {
+	init sync.Mutex
+	c    chan struct{}
+}
+
+func (m *verifRWMutex) ch() chan struct{} {
+	m.init.Lock()
+	defer m.init.Unlock()
+	if m.c == nil {
+		m.c = make(chan struct{}, 1)
+	}
+	return m.c
+}
+func (m *verifRWMutex) Lock()    { m.ch() <- struct{}{} }
+func (m *verifRWMutex) Unlock()  { <-m.ch() }
+func (m *verifRWMutex) RLock()   { m.Lock() }
+func (m *verifRWMutex) RUnlock() { m.Unlock() }
+
 type failPlan struct {
 	after time.Duration
 	kind  int // 0 error, 1 nil return, 2 panic
@@ -142,7 +162,7 @@ func (w *supWorld) runnable(spec *svcSpec, parent func() *incarnation) Runnable 
 		fail := func() error {
 			w.mu.Lock()
 			inc.failed, inc.failedAt, inc.failKind = true, w.now(), plan.kind
-			w.stats.Fault([]string{"service-returns-error", "service-returns-nil", "service-panics"}[plan.kind])
+			w.stats.Fault([]string{"service-returns-error", "service-returns-nil", "service-panics", "service-signals-illegally"}[plan.kind])
 			w.ev("fail %s #%d kind=%d", spec.dn, inc.n, plan.kind)
 			w.mu.Unlock()
 			switch plan.kind {
@@ -150,6 +170,11 @@ func (w *supWorld) runnable(spec *svcSpec, parent func() *incarnation) Runnable 
 				return errors.New("scripted failure")
 			case 1:
 				return nil
+			case 3:
+				// an illegal life-cycle signal: the supervisor API panics while it holds the tree lock
+				Signal(ctx, SignalHealthy)
+				Signal(ctx, SignalHealthy)
+				return errors.New("unreachable")
 			default:
 				panic("scripted panic")
 			}
@@ -400,8 +425,8 @@ func (supHarness) Gen(seed uint64, prop, tier string) *simkit.Program {
 		if r.P(0.07) {
 			dn = "root"
 		}
-		kind := int64(r.Pick(4, 3, 3))
-		if p.Cfg["propagate"] == 1 && kind == 2 {
+		kind := int64(r.Pick(4, 3, 3, 2))
+		if p.Cfg["propagate"] == 1 && kind >= 2 {
 			kind = 0
 		}
 		after := nextPrime() * int64(r.Range(1, 400)) // up to ~40 s
@@ -450,11 +475,11 @@ func (h supHarness) Exec(p *simkit.Program) *simkit.Result {
 		if after <= 0 {
 			after = time.Microsecond
 		}
-		kind := int(st.C) % 3
+		kind := int(st.C) % 4
 		if kind < 0 {
 			kind = 0
 		}
-		if p.C("propagate", 0) == 1 && kind == 2 {
+		if p.C("propagate", 0) == 1 && kind >= 2 {
 			kind = 0
 		}
 		s.fails[int(st.A)%8] = failPlan{after, kind}
